@@ -216,3 +216,66 @@ func TestC05ReaderRowAnsweredByOwnWriteIsNotValidated(t *testing.T) {
 		t.Fatalf("the scan returned k0, k5; at the commit point (after tx 2) it returns k0, k1, yet the tx was accepted as tx %d (err %v)", c05ID(hdr), err)
 	}
 }
+
+// The non-crashing face of the same defect: a Set of a NEW key below the position of an open descending
+// reader shifts the entries of the leaf the reader stands on, and the reader silently skips one committed
+// key (an ascending reader positioned after the new key returns one key twice). The transaction commits.
+func TestC05SetWhileReaderOpenSkipsRow(t *testing.T) {
+	st, err := Open(t.TempDir(), c05Opts())
+	if err != nil {
+		t.Fatal(err)
+	}
+	defer st.Close()
+	ctx := context.Background()
+	var kvs []string
+	for i := 0; i < 10; i++ {
+		kvs = append(kvs, fmt.Sprintf("k%02d", i), "v")
+	}
+	c05Commit(t, st, kvs...)
+	for _, desc := range []bool{true, false} {
+		tx, err := st.NewTx(ctx, DefaultTxOptions())
+		if err != nil {
+			t.Fatal(err)
+		}
+		if err := tx.Set([]byte("zz"), nil, []byte("own")); err != nil { // the leaf becomes private to the transaction's snapshot
+			t.Fatal(err)
+		}
+		rd, err := tx.NewKeyReader(KeyReaderSpec{Prefix: []byte("k"), DescOrder: desc})
+		if err != nil {
+			t.Fatal(err)
+		}
+		var got []string
+		for i := 0; i < 4; i++ {
+			k, _, err := rd.Read(ctx)
+			if err != nil {
+				t.Fatal(err)
+			}
+			got = append(got, string(k))
+		}
+		newKey := "k01a" // below a descending reader standing at k06, above... an ascending one standing at k03 has passed it
+		if err := tx.Set([]byte(newKey), nil, []byte("own")); err != nil {
+			t.Fatal(err)
+		}
+		for {
+			k, _, err := rd.Read(ctx)
+			if err != nil {
+				break
+			}
+			got = append(got, string(k))
+		}
+		rd.Close()
+		seen := map[string]int{}
+		for _, k := range got {
+			seen[k]++
+		}
+		for i := 0; i < 10; i++ {
+			k := fmt.Sprintf("k%02d", i)
+			if seen[k] != 1 {
+				t.Errorf("desc=%v: committed key %s returned %d times by a reader of a transaction that wrote %s meanwhile (rows: %v)", desc, k, seen[k], newKey, got)
+			}
+		}
+		if _, err := tx.Commit(ctx); err != nil {
+			t.Logf("desc=%v: commit: %v", desc, err)
+		}
+	}
+}
